@@ -1,9 +1,188 @@
 import PraatModel.Proto
+import PraatModel.Klatt
 
-/-! # driver operations for C19: KlattGrid / point objects (extension point of `Run.lean`) -/
+/-! # driver operations for C19: KlattGrid / point objects (extension point of `Run.lean`)
+
+strings (texts, numerals, names) travel as `h` + hex of their UTF-8 bytes.
+
+* units: `u_find p s start`, `u_findall p s`, `u_rfind c s hi`, `u_slice s a b`, `u_splitn c n s` (`n = -1`: no limit),
+  `u_rstrip s`, `u_firsttok s`, `u_natdec n`, `u_fclass s`, `u_isint s`
+* `klatt_read text`, `klatt_clean text`, `klatt_psd text`, `klatt_write tree`, `klatt_file tree pre post`,
+  `klatt_slices old body`, `klatt_modsub its name k (old new)*`
+* `po_read1d text`, `po_read2d text`, `po_write cls min max nrows width numerals…`, `po_writelong twoD cls …`
+-/
+
+namespace KlattRun
+open Klatt
+
+def hexNib (b : UInt8) : Option UInt8 :=
+  if 48 ≤ b && b ≤ 57 then some (b - 48) else if 97 ≤ b && b ≤ 102 then some (b - 87) else none
+
+/-- like `P.str`, with a loop instead of a recursion (texts of several 100 kB) -/
+def bigStr : P String := do
+  let tk ← P.tok
+  let bs := tk.toUTF8
+  if bs.size = 0 then throw "bad string token"
+  if bs[0]! ≠ 104 then throw s!"bad string token"
+  if bs.size % 2 ≠ 1 then throw "bad hex"
+  let n := (bs.size - 1) / 2
+  let mut out := ByteArray.emptyWithCapacity n
+  for i in [0:n] do
+    match hexNib bs[1 + 2 * i]!, hexNib bs[2 + 2 * i]! with
+    | some x, some y => out := out.push (16 * x + y)
+    | _, _ => throw "bad hex"
+  match String.fromUTF8? out with
+  | some s => pure s
+  | none => throw "bad utf8"
+
+def txt : P Txt := do pure (← bigStr).toList
+def char : P Char := do
+  match (← txt) with
+  | [c] => pure c
+  | _ => throw "expected a one-character string"
+
+def otxt (s : Txt) : String := Out.str (String.ofList s)
+def oint (i : Int) : String := toString i
+def olist (xs : List String) : String := Out.join (toString xs.length :: xs)
+
+def oexc {β} (f : β → String) : R β → String
+  | .ok v => "ok " ++ f v
+  | .error e => "err " ++ e.name
+
+def optsToStr (ps : List (Txt × Txt)) : String :=
+  Out.join (toString ps.length :: ps.map fun (a, b) => otxt a ++ " " ++ otxt b)
+
+def oPT (p : PT) : String := Out.join [otxt p.name, otxt p.xmin, otxt p.xmax, optsToStr p.pts]
+def oIT (i : IT) : String := Out.join ([otxt i.name, toString i.subs.length] ++ i.subs.map oPT)
+def oSec : Sec → String
+  | .tier p => "T " ++ oPT p
+  | .cont n its => Out.join (["C", otxt n, toString its.length] ++ its.map oIT)
+def oSecs (ss : List Sec) : String := Out.join (toString ss.length :: ss.map oSec)
+def oITs (is : List IT) : String := Out.join (toString is.length :: is.map oIT)
+
+def pPts : P (List (Txt × Txt)) := do
+  let n ← P.nat
+  P.many n (do let a ← txt; let b ← txt; pure (a, b))
+def pPT : P PT := do
+  let name ← txt; let a ← txt; let b ← txt; let pts ← pPts
+  pure ⟨name, a, b, pts⟩
+def pIT : P IT := do
+  let name ← txt; let n ← P.nat; let subs ← P.many n pPT
+  pure ⟨name, subs⟩
+def pITs : P (List IT) := do let n ← P.nat; P.many n pIT
+def pWSec : P WSec := do
+  match (← P.tok) with
+  | "T" => do let p ← pPT; pure ⟨.tier p, none⟩
+  | "C" => do
+    let name ← txt
+    let span ← P.opt (do let a ← txt; let b ← txt; pure (a, b))
+    let its ← pITs
+    pure ⟨.cont name its, span⟩
+  | k => throw s!"expected T or C got {k}"
+/-- `<xmin> <xmax> <nsec> section*` -/
+def pTree : P (Txt × Txt × List WSec) := do
+  let a ← txt; let b ← txt; let n ← P.nat; let ss ← P.many n pWSec
+  pure (a, b, ss)
+
+def oPO (p : PO) : String :=
+  Out.join ([otxt p.cls, otxt p.xmin, otxt p.xmax, toString p.rows.length] ++
+    p.rows.map fun r => olist (r.map otxt))
+
+def pPO : P PO := do
+  let cls ← txt; let a ← txt; let b ← txt; let n ← P.nat; let w ← P.nat
+  let rows ← P.many n (P.many w txt)
+  pure ⟨cls, a, b, rows⟩
+
+def fclassName : Option FClass → String
+  | none => "none" | some .zero => "zero" | some .pos => "pos" | some .neg => "neg" | some .nan => "nan"
+
+/-- the stripped slices `_getSectionHeader` cuts for every index list of a container body -/
+def slices (old : Bool) (body : Txt) : List (List Txt) :=
+  let ls := if old then containerIndexListsOld body else containerIndexLists body
+  ls.map fun l => (List.range (l.length - 1)).map fun j =>
+    stripList (pySlice body (l.getD j 0) (l.getD (j + 1) 0))
+
+def runOp (op : String) : Option (P String) :=
+  match op with
+  | "u_find" => some do
+    let p ← txt; let s ← txt; let st ← P.nat
+    pure ("ok " ++ (match pyFind p s st with | some i => toString i | none => "-1"))
+  | "u_findall" => some do
+    let p ← txt; let s ← txt
+    pure ("ok " ++ olist ((findAll p s).map toString))
+  | "u_rfind" => some do
+    let c ← char; let s ← txt; let hi ← P.nat
+    pure ("ok " ++ oint (pyRfindChar c s hi))
+  | "u_slice" => some do
+    let s ← txt; let a ← P.int; let b ← P.int
+    pure ("ok " ++ otxt (pySlice s a b))
+  | "u_splitn" => some do
+    let c ← char; let n ← P.int; let s ← txt
+    let parts := if n < 0 then pySplit c s else pySplitN c n.toNat s
+    pure ("ok " ++ olist (parts.map otxt))
+  | "u_rstrip" => some do
+    let s ← txt
+    pure ("ok " ++ otxt (rstrip s))
+  | "u_firsttok" => some do
+    let s ← txt
+    pure (match firstToken s with | some x => "ok " ++ otxt x | none => "err IndexError")
+  | "u_natdec" => some do
+    let n ← P.nat
+    pure ("ok " ++ otxt (natDec n))
+  | "u_fclass" => some do
+    let s ← txt
+    pure ("ok " ++ fclassName (fclass s))
+  | "u_isint" => some do
+    let s ← txt
+    pure ("ok " ++ Out.bool (isIntLit s))
+  | "klatt_read" => some do
+    let s ← txt
+    pure (oexc oSecs (openNormal s))
+  | "klatt_clean" => some do
+    let s ← txt
+    pure ("ok " ++ otxt (cleanNumeric s))
+  | "klatt_psd" => some do
+    let s ← txt
+    pure (oexc optsToStr (processSectionData s))
+  | "klatt_write" => some do
+    let (a, b, ss) ← pTree
+    pure ("ok " ++ otxt (fileText a b ss))
+  | "klatt_file" => some do
+    let (a, b, ss) ← pTree; let pre ← txt; let post ← txt
+    let w := decide (rawText a b ss = pre)
+    let c := decide (cleanNumeric pre = post)
+    pure (s!"ok w={Out.bool w} c={Out.bool c} " ++ oexc oSecs (openNormal post))
+  | "klatt_slices" => some do
+    let old ← P.bool; let body ← txt
+    pure ("ok " ++ olist ((slices old body).map fun l => olist (l.map otxt)))
+  | "klatt_modsub" => some do
+    let its ← pITs; let name ← txt; let k ← P.nat
+    let tbl ← P.many k (do let a ← txt; let b ← txt; pure (a, b))
+    let f : Txt → Txt := fun v => match tbl.find? (·.1 = v) with | some (_, w) => w | none => v
+    pure (oexc oITs (modifySubtiers its name f))
+  | "po_read1d" => some do
+    let s ← txt
+    pure (oexc oPO (open1D s))
+  | "po_read2d" => some do
+    let s ← txt
+    pure (oexc oPO (open2D s))
+  | "po_write" => some do
+    let p ← pPO
+    pure ("ok " ++ otxt p.text)
+  | "po_file" => some do
+    let two ← P.bool; let p ← pPO; let short ← txt; let long ← txt
+    let w := decide (p.text = short)
+    let lw := decide (p.longText two = long)
+    let rd := if two then open2D else open1D
+    pure (s!"ok w={Out.bool w} lw={Out.bool lw} " ++ oexc oPO (rd short) ++ " | " ++ oexc oPO (rd long))
+  | "po_writelong" => some do
+    let two ← P.bool; let p ← pPO
+    pure ("ok " ++ otxt (p.longText two))
+  | _ => none
+
+end KlattRun
 
 /-- `none` = not an operation of this group.  `α` is the number type of the run (`Float` or `Int`). -/
 def runOpKlatt (α : Type) [LT α] [LE α] [DecidableLT α] [DecidableLE α] [BEq α] [Add α] [Sub α] [Tm α] [Proto α]
     (op : String) : Option (P String) :=
-  match op with
-  | _ => none
+  KlattRun.runOp op
